@@ -24,7 +24,8 @@ start and shutdown variables (`shutdown_j` at index `shutdownIdx + j = startIdx 
 * start and shutdown flags are defined simultaneously by EQUALITIES
     `on_{t+1} − on_t − start_{t+1} + shut_{t+1} = 0` (`t < T−1`),
     `on_0 − start_0 = 0` (was off) resp. `on_0 + shut_0 = 1` (was running),
-    `start_t + shut_t ≤ 1` (`t < T−1`), and `u[shut_0] = 0` (was off) resp. `u[start_0] = 0` (was running);
+    `start_t + shut_t ≤ 1` (ALL `t < T`, the last step included: repaired in /repo, commit e7aae05), and
+    `u[shut_0] = 0` (was off) resp. `u[start_0] = 0` (was running);
 * shutdown variables cost nothing and have no fuel rows.
 
 `_convert_ramp` (profile given in `ramp_freq`, default: the main time unit) is modelled by `convertRamp`:
@@ -203,7 +204,7 @@ def CHPRP.overlapRow (r : CHPRP) (t : Nat) : Row :=
 def CHPRP.startShutRows (r : CHPRP) : List Row :=
   (List.range (r.core.T - 1)).map r.startShutRow ++
     [if r.core.tar = 0 then r.core.startFirstRow else r.firstRunningRow] ++
-    (List.range (r.core.T - 1)).map r.overlapRow
+    (List.range r.core.T).map r.overlapRow
 
 def CHPRP.rows (r : CHPRP) : List Row :=
   r.core.baseRows ++ r.capRows ++ r.rampRows ++ r.startShutRows ++ r.core.runtimeRows ++ r.core.downtimeRows ++
